@@ -77,6 +77,12 @@ def scenarios():
     add("semantic_error_three_dirs", {"preCompileOk": 0}, gdl=SEMANTIC, gdldir="src", fontdir="fonts", out="adir/out.ttf")
     add("ok_font_elsewhere_dbg", {"dbgFiles": 1, "dbgXml": 1}, fontdir="fonts", opts=["-D"])
     add("ok_gdl_elsewhere_abs", {}, gdldir="ABS/src2")
+    # output font omitted: its name is derived from the input font's (xyz.ttf -> xyz_gr.ttf; without a dot: xyz -> xyz_gr)
+    add("ok_output_omitted", {}, out=None)
+    add("ok_output_omitted_font_without_dot", {}, out=None, fontname_copy="infont")
+    add("semantic_error_output_omitted_font_without_dot", {"preCompileOk": 0}, gdl=SEMANTIC, out=None, fontname_copy="infont")
+    # the derived output name is the input font itself, reached through a symbolic link: f.ttf -> f_gr.ttf
+    add("derived_output_is_the_linked_input", {"sameInOut": 1}, out=None, fontname_link=("f.ttf", "f_gr.ttf"))
     add("semantic_error_dbg", {"preCompileOk": 0, "dbgFiles": 1, "dbgXml": 1}, gdl=SEMANTIC, opts=["-D"])
     return S
 
@@ -129,14 +135,29 @@ def run_scenario(build, work, name, setup, pre_existing_out=None):
             open(os.path.join(d, gdlname), "wb").write(setup["gdl_bytes"])
         else:
             open(os.path.join(d, gdlname), "w").write(setup.get("gdl", GOOD))
-    out = setup.get("out", "out.ttf").replace("ABS", d)
+    if "fontname_copy" in setup:
+        # the input font under another name (a copy; in.ttf stays where it is)
+        fontname = setup["fontname_copy"]
+        shutil.copy(os.path.join(d, "in.ttf"), os.path.join(d, fontname))
+    if "fontname_link" in setup:
+        linkname, realname = setup["fontname_link"]
+        shutil.copy(os.path.join(d, "in.ttf"), os.path.join(d, realname))
+        os.symlink(realname, os.path.join(d, linkname))
+        fontname = linkname
+    omit_out = ("out" in setup and setup["out"] is None)
+    if omit_out:
+        stem = os.path.basename(fontname)
+        out_derived = (stem[:stem.index(".")] + "_gr" + stem[stem.index("."):]) if "." in stem else stem + "_gr"
+        out = os.path.join(os.path.dirname(fontname), out_derived)
+    else:
+        out = setup.get("out", "out.ttf").replace("ABS", d)
     if pre_existing_out is not None and not os.path.isdir(os.path.join(d, out)):
         try:
             open(os.path.join(d, out), "wb").write(pre_existing_out)
         except OSError:
             pass
     errfile = setup.get("errfile")
-    args = ["-q"] + setup.get("opts", []) + (["-e", errfile] if errfile else []) + [gdlname, fontname, out]
+    args = ["-q"] + setup.get("opts", []) + (["-e", errfile] if errfile else []) + [gdlname, fontname] + ([] if omit_out else [out])
     env = dict(os.environ)
     env["GDLPP"] = setup.get("gdlpp", build["gdlpp"])
     before = snapshot(d)
@@ -213,7 +234,7 @@ def run_scenario(build, work, name, setup, pre_existing_out=None):
             # temporary files created by THIS run (per its own system-call trace) that still exist; a snapshot difference of
             # /tmp would also count files of compilations that other checks run at the same time
             "tmp_leaked": sorted(p for (p, fl, ret) in writes if p.startswith("/tmp/gdl") and "O_EXCL" in fl and ret >= 0 and os.path.exists(p)),
-            "out": out, "errpath": errpath, "inputs": [os.path.normpath(os.path.relpath(os.path.join(d, x), d)) for x in (gdlname, fontname, os.path.join(gdldir, "stddef.gdh"))],
+            "out": out, "errpath": errpath, "inputs": [os.path.normpath(os.path.relpath(os.path.join(d, x), d)) for x in (gdlname, fontname, os.path.join(gdldir, "stddef.gdh")) + ((setup["fontname_link"][1],) if "fontname_link" in setup else ())],
             "errtext": errtext, "args": args}
 
 
